@@ -72,6 +72,9 @@ def run(ctx):
     # (e) hammer: one instance, 16 threads, thousands of calls of ONE kind each: a race window of a few
     # instructions between two critical sections (a generator copied out and written back, a two-step fork) is only hit
     # under real contention and at volume (measured on such a seeded change: 12-117 repeated values per run, none at 8 x 400)
+    # refused calls (unknown attribute / dimension) between successful ones, alone and under contention
+    conc.burst(ctx, 1, 1, 150 if ctx.quick() else 3000, kind=7, what=' (refused calls interleaved with encapsulations and headers, one thread)')
+    conc.burst(ctx, 1, 8, 60 if ctx.quick() else 1500, kind=7, what=' (refused calls interleaved, 8 threads)')
     for kind, what, k in ((0, 'encaps', 1500), (1, 'PKE encrypt', 800), (2, 'header generate', 800)):
         conc.burst(ctx, 1, 16, k if ctx.quick() else 12 * k, kind=kind, what=f' (all {what})')
     ctx.nontrivial = set(ctx.hist) | {f'stress-thread-{i}' for i in range(len(done))}
